@@ -25,7 +25,7 @@ def v1K (cg : CGOut) (env : Env) (xc : X.Ctx) (consts : List (Int × String)) (n
     sp := (spValue cg.globalsOffset).toNat - (frameOf cg 0).size,
     loc := v1Loc cg env ((spValue cg.globalsOffset).toNat - (frameOf cg 0).size) (frameOf cg 0).size,
     consts := consts, nlocals := nlocals,
-    hi := hi }
+    hi := hi, gnames := [], dep := 1 }
 
 theorem find?_mem : ∀ (t : SymTab) (k : SymKey) (s : Symbol), t.find? k = some s → (k, s) ∈ t := by
   intro t
@@ -313,7 +313,8 @@ theorem v1_core (P : X.Program) (m : X.Proc) (inp : X.Input) (fuel : Nat) (β : 
     exact hlocs n hn
   -- the initial representation
   have rep : Rep K (v1Start P m inp) memP := by
-    refine ⟨by rw [hKsp]; exact hP1, fun n w h => by rw [hKρ] at h; simp at h, ?_, ?_, ?_, ?_⟩
+    refine ⟨by rw [hKsp]; exact hP1, fun n w h => by rw [hKρ] at h; simp at h, ?_, ?_, ?_, ?_,
+      fun n hn => by rw [hK] at hn; simp [v1K] at hn, by rw [hK]; rfl⟩
     · intro n w _ h
       rw [hKxc] at h
       exact absurd h (readName_start P m inp fuel n w)
